@@ -248,7 +248,28 @@ def api_histories():
     H.append((None, [("new", 0), ("compile", 0, PARGV), ("prepareargv", 0, "main", 2), ("vmnew", 0, 5000, 200), ("exec", 0, 0), ("vmdel", 0), ("del", 0)]))
     H.append(("prepare-argv-twice", [("new", 0), ("compile", 0, PARGV), ("prepareargv", 0, "main", 2), ("prepareargv", 0, "main", 3), ("vmnew", 0, 5000, 200),
                                      ("exec", 0, 0), ("vmdel", 0), ("del", 0)]))
+    # two programs alive, run-time diagnostics (division by zero) of each, on one machine each and on a shared one, interleaved with a
+    # compile: every diagnostic must land in the message array of the program that was executing (checked on the `m<slot>=` tokens)
+    H.append((None, [("new", 0), ("compile", 0, P1), ("new", 1), ("compile", 1, "func main(a : int) -> int { 100 / a }"), ("prepare", 0, "main", 0), ("prepare", 1, "main", 0),
+                     ("vmnew", 0, 5000, 200), ("vmnew", 1, 5000, 200), ("exec", 0, 0), ("exec", 1, 1), ("exec", 0, 0), ("new", 2), ("compile", 2, P2), ("exec", 0, 0), ("exec", 1, 1),
+                     ("exec", 1, 0), ("exec", 0, 1), ("exec", 0, 0), ("del", 2), ("exec", 1, 1), ("vmdel", 0), ("vmdel", 1), ("del", 0), ("del", 1)]))
     return H
+
+def message_owner_violations(history, trace):
+    """from the `m<slot>=c0,c1,c2,c3` tokens h_leak writes after every compile / exec: only the compiled / executed program's count may change"""
+    bad = []
+    prev = None
+    for tok in trace.split():
+        m = re.match(r"m(\d+)=([-\d,]+)$", tok)
+        if not m:
+            continue
+        slot = int(m.group(1)); cur = [int(x) for x in m.group(2).split(",")]
+        if prev is not None:
+            for q, (x, y) in enumerate(zip(prev, cur)):
+                if q != slot and x != y and x >= 0 and y >= 0:
+                    bad.append("a step on program %d changed the message count of program %d (%d -> %d)" % (slot, q, x, y))
+        prev = cur
+    return bad
 
 def check(tier, seed):
     rep = Report("C16", tier, seed, "proof")
@@ -396,6 +417,8 @@ def check(tier, seed):
                     rep.finding("msg-buffer-dangling", "utils.c keeps pointers into the last compiled program's message buffer; after program_delete of that program a run-time diagnostic of another program writes through them\n--- history ---\n%s\n--- observed ---\n%s" % (it["src"], r["crash"][-2500:]))
                 else:
                     rep.finding(cs + ":history", "--- history ---\n%s\n--- observed ---\n%s" % (it["src"], r["crash"][-2500:]))
+            for msg in message_owner_violations(h, (r.get("res") or {}).get("trace", ""))[:2]:
+                rep.violation("c16_msg_owner_%s" % it["name"], "# diagnostics went to another program's message array: %s\n--- history ---\n%s\n--- trace ---\n%s" % (msg, it["src"], (r.get("res") or {}).get("trace", "")), True)
             for sig, nb, frames, root in sigs:
                 if root:
                     rep.finding(sig, "--- history ---\n%s\nroot block allocated in %s" % (it["src"], " <- ".join(frames)))
